@@ -138,11 +138,20 @@ def failOutcome {α : Type} (t : Nat) : Pick α → Outcome
   | .emptyDomain => ⟨[], t, .rejected⟩
   | _ => ⟨[], t, .error⟩
 
+/-- what happens after the pick of a `do choose` at step `t` -/
+def chooseStep (env : Env) (t : Nat) : Pick Item → Dist Outcome
+  | .picked x => Dist.pure ⟨[ranEvent t x], t + env.dur x.id t, .done⟩
+  | p => Dist.pure (failOutcome t p)
+
 /-- `do choose …` started at step `t` -/
 def doChoose (c : Config) (env : Env) (t : Nat) (items : List Item) : Dist Outcome :=
-  Dist.bind (pickEnabled c env t items) fun
-    | .picked x => Dist.pure ⟨[ranEvent t x], t + env.dur x.id t, .done⟩
-    | p => Dist.pure (failOutcome t p)
+  Dist.bind (pickEnabled c env t items) (chooseStep env t)
+
+/-- one iteration of the shuffle scheduler after the pick: `subs.pop(choice)`, run it to completion, go on -/
+def shuffleStep (env : Env) (t : Nat) (recur : Nat → List Item → Dist Outcome) (rem : List Item) :
+    Pick Item → Dist Outcome
+  | .picked x => Dist.map (Outcome.prepend [ranEvent t x]) (recur (t + env.dur x.id t) (rem.erase x))
+  | p => Dist.pure (failOutcome t p)
 
 /-- the `shuffle` scheduler: `while subs: choice = pick(subs); subs.pop(choice); run choice`.
 `fuel` bounds the number of iterations (`doShuffle` supplies `items.length`, which is exact). -/
@@ -150,10 +159,7 @@ def shuffleAux (c : Config) (env : Env) : Nat → Nat → List Item → Dist Out
   | 0, t, _ => Dist.pure ⟨[], t, .done⟩
   | fuel + 1, t, rem =>
     if rem.isEmpty then Dist.pure ⟨[], t, .done⟩
-    else Dist.bind (pickEnabled c env t rem) fun
-      | .picked x =>
-        Dist.map (Outcome.prepend [ranEvent t x]) (shuffleAux c env fuel (t + env.dur x.id t) (rem.erase x))
-      | p => Dist.pure (failOutcome t p)
+    else Dist.bind (pickEnabled c env t rem) (shuffleStep env t (shuffleAux c env fuel) rem)
 
 def doShuffle (c : Config) (env : Env) (t : Nat) (items : List Item) : Dist Outcome :=
   shuffleAux c env items.length t items
@@ -179,7 +185,9 @@ inductive DrawSpec where
   | uniform (opts : List Int)
   deriving Repr
 
-def intRange (lo : Int) (n : Nat) : List Int := (List.range n).map fun (k : Nat) => lo + (k : Int)
+def intRange : Int → Nat → List Int
+  | _, 0 => []
+  | lo, n + 1 => lo :: intRange (lo + 1) n
 
 /-- uniform distribution on a list -/
 def uniformOn {α : Type} (xs : List α) : Dist α := xs.map fun x => (x, 1 / (xs.length : Rat))
@@ -210,13 +218,16 @@ inductive Stmt where
 def andThen (o : Outcome) (k : Nat → Dist Outcome) : Dist Outcome :=
   if o.status = .done then Dist.map (Outcome.prepend o.log) (k o.endTime) else Dist.pure o
 
+/-- what happens after a run-time draw at step `t`: log the value, one time step, go on -/
+def drawStep (t : Nat) (recur : Int → Dist Outcome) : Pick Int → Dist Outcome
+  | .picked z => Dist.map (Outcome.prepend [⟨t, 1, z⟩]) (recur z)
+  | p => Dist.pure (failOutcome t p)
+
 def exec (c : Config) (env : Env) : List Stmt → Nat → List Int → Dist Outcome
   | [], t, _ => Dist.pure ⟨[], t, .done⟩
   | .wait n :: rest, t, vals => exec c env rest (t + n) vals
   | .draw s :: rest, t, vals =>
-    Dist.bind (drawDist c vals s) fun
-      | .picked z => Dist.map (Outcome.prepend [⟨t, 1, z⟩]) (exec c env rest (t + 1) (vals ++ [z]))
-      | p => Dist.pure (failOutcome t p)
+    Dist.bind (drawDist c vals s) (drawStep t fun z => exec c env rest (t + 1) (vals ++ [z]))
   | .choose items :: rest, t, vals =>
     Dist.bind (doChoose c env t items) fun o => andThen o fun t' => exec c env rest t' vals
   | .shuffle items :: rest, t, vals =>
